@@ -91,6 +91,14 @@ HANDLE_PROBES = [
     ("reentrant_method_local", "class W { public W other; public constructor() -> W = default; public function go(int n) -> int { qubit q; x(q); int inner = 0; "
                                "if (n > 0 && other != null) { inner = other.go(n - 1); } bit r = measure q; if (r == 1b) { return inner + 1; } return inner; } }\n"
                                "function main() -> void { W a = new W(); W b = new W(); a.other = b; b.other = a; echo(a.go(3)); }\n", "4"),
+    # an owner of a tracked qubit held only by a garbage cycle, reclaimed by the collector (allocation pressure): its index is
+    # released once - the next two declarations get two qubits
+    ("gc_owner_in_garbage_cycle", "class Cell { @tracked public qubit q; public constructor() -> Cell = default; }\n"
+                                  "class Link { public Link peer; public Cell held; public constructor() -> Link { this.peer = null; this.held = null; } }\n"
+                                  "class Pad { public int v; public constructor(int x) -> Pad { this.v = x; } }\n"
+                                  "function ring() -> void { Link a = new Link(); Link b = new Link(); a.held = new Cell(); a.peer = b; b.peer = a; }\n"
+                                  "function main() -> void { ring(); int s = 0; for (int i = 0; i < 40; i = i + 1) { Pad t = new Pad(i); s = s + t.v; } "
+                                  "Cell first = new Cell(); Cell second = new Cell(); x(first.q); bit r = measure second.q; echo(r); bit u = measure first.q; }\n", "0"),
     # controls: ONE declaration reached by two names must be shared
     ("param_is_same_qubit", "function f(qubit p) -> void { x(p); }\nfunction main() -> void { qubit a; f(a); bit r = measure a; echo(r); }\n", "1"),
     ("field_via_two_refs", QCLS + "function main() -> void { Q o = new Q(); Q o2 = o; x(o.q); bit r = measure o2.q; echo(r); }\n", "1"),
@@ -99,7 +107,7 @@ HANDLE_PROBES = [
 
 def handle_probes(out):
     known = vlib.known_for(PID)
-    jobs = [{"id": i, "src": src, "gc": "none"} for i, (_, src, _) in enumerate(HANDLE_PROBES)]
+    jobs = [{"id": i, "src": src, "gc": "pressure" if route.startswith("gc_") else "none"} for i, (route, src, _) in enumerate(HANDLE_PROBES)]
     res = runner.run_jobs(jobs)
     nviol = 0
     for i, (route, src, want) in enumerate(HANDLE_PROBES):
